@@ -1135,11 +1135,14 @@ def main():
     run.cov["trusted_base"] += ["harness/translate_settings.py (pydantic introspection; output sampled into the evidence)",
                                 "harness/c14.py (generator, adapter, canonicalisation, oracle)",
                                 "/verif/approved_settings.json (frozen transcription of the approved constants and domains)",
-                                "pydantic semantics re-specified in Model/Settings.v"]
+                                "pydantic semantics re-specified in Model/Settings.v",
+                                "Model/SettingsProg.v: semantics of the statement language the daily-family validator bodies are "
+                                "compiled into (python truthiness, None/float/str tests, numeric comparison, indexing, prefix slice)"]
     info = None
     translator_error = None
     try:
         info = ts.generate(run)
+        run.cov["validator_programs"] = info.get("programs", {})
         run.cov["translator"] = {"classes": {n: [f["name"] for f in c["fields"]] for n, c in info["classes"].items()},
                                  "validators": {n: [v["py"] for v in c["validators"]] for n, c in info["classes"].items()}}
     except Exception as e:   # fail-closed: a source the translator does not understand is a broken tie
